@@ -10,7 +10,8 @@
 The Lean model `SophiaModel.Iso` takes the variant as a parameter `deep : Bool`; the driver runs it with
 the value generated here, the theorems are stated for every value (and `iso_relabel` for `deep = true`,
 `iso_relabel_partial` + refutation witness for `deep = false`).  Anything else (the three methods
-disagreeing with each other, a body that is neither shape) fails the extraction.
+disagreeing with each other, a body that is neither shape) fails the extraction.  Bodies are compared modulo
+white space, comments and the names of the two `let` locals of iso_eq / iso_cmp.
 `read`, `ExtractError`, `HEADER` are injected by tools/extract.py.
 """
 import re
@@ -30,8 +31,18 @@ def _body(text, header_re, what):
         elif text[j] == "}":
             depth -= 1
             if depth == 0:
-                return re.sub(r"\s+", "", re.sub(r"//[^\n]*", "", text[i + 1:j]))
+                return re.sub(r"\s+", "", _alpha(re.sub(r"//[^\n]*", "", text[i + 1:j])))
     raise ExtractError("%s: unbalanced braces in %s" % (REL, what))  # noqa: F821
+
+
+def _alpha(body):
+    """the names of the two locals bound to `t1.triple().unwrap()` / `t2.triple().unwrap()` are immaterial:
+    rename them to spo1 / spo2 (a pure renaming must not make the extraction fail)"""
+    for arg, canon in (("t1", "spo1"), ("t2", "spo2")):
+        m = re.search(r"\blet\s+([A-Za-z_]\w*)\s*=\s*%s\s*\.\s*triple\(\)\s*\.\s*unwrap\(\)" % arg, body)
+        if m and m.group(1) != canon and not re.search(r"\b%s\b" % canon, body):
+            body = re.sub(r"\b%s\b" % re.escape(m.group(1)), canon, body)
+    return body
 
 
 A = {
